@@ -82,6 +82,8 @@ DECORATED = {
     'Oxidation|Obs:+15.99': 'Oxidation', 'Formula:C2H2O|INFO:x': 'Formula:C2H2O',
     # a mass shift FIRST, then a name of the same mass (to 4e-7): the mass side reads the number, the composition side may read
     # the name; alternatives that contradict each other in mass are outside every property (DESIGN section 10)
+    # an unsigned integer with a localisation tag is a mass shift, not an accession (D29)
+    '10#g1': '10', '35#g1(0.5)': '35', '1#g2': '1',
     'Obs:+42.010565|Acetyl': 'Acetyl', '+42.010565|Acetyl': 'Acetyl', '42.010565|U:1': 'Acetyl',
 }
 ZERO_MASS = ['#g1']      # bare localisation tag: no mass of its own
